@@ -52,7 +52,7 @@ func NewDG11(data []byte) (*DG11, error) {
 
 	slog.Debug("DG11", "TLV", nodes)
 
-	rootNode := nodes.NodeByTag(DG11Tag)
+	rootNode := lookupRootNode(nodes, DG11Tag)
 
 	if !rootNode.IsValidNode() {
 		return nil, fmt.Errorf("root node (%x) missing", DG11Tag)
